@@ -195,6 +195,12 @@ def one_case(ctx, rng, pop):
         light_set = injection.provide(i_controller.LightSet)
         lights = {nm: light_set.get_light(nm) for nm, _, _ in pop}
         if any(l is None for l in lights.values()):
+            # the directory was discovered from exactly these lights: a name it does not know is a name the capture will write
+            # and the replay will not find
+            missing = [nm for nm, l in lights.items() if l is None]
+            ctx.counterexample('C18/directory-does-not-know-a-discovered-light',
+                               'after discovery the light set has no light under the name(s) %r that the lights report: a capture lists them, the replay cannot address them'
+                               % missing[:3], {'population': pop, 'names_known': list(light_set.get_light_names())[:10]})
             res['skip'] = 'light set does not know a generated name'
             return res
         for nm, kind, st in pop:
